@@ -17,7 +17,7 @@ from .ref_sig import ALIGN, BASIC, INT_RANGE, split, fields
 DOUBLES = [0.0, -0.0, 1.5, float('inf'), float('-inf'), float('nan'),
            5e-324, 1.7976931348623157e308, -2.2250738585072014e-308]
 PATHS = ['/', '/a', '/org/freedesktop/DBus', '/a_1/B2']
-SIGS = ['', 'i', 'a{sv}', '(ii)', 'aai']
+SIGS = ['', 'i', 'a{sv}', '(ii)', 'aai', 'y' * 127, 'd' * 128, 'ai' * 100, 'x' * 255]     # lengths around the 1-byte length field's sign bit and at the limit
 KEY_INTS = {'y': [0, 255, 7], 'n': [-32768, 32767, -1], 'q': [0, 65535, 256],
             'i': [-2**31, 2**31 - 1, 0], 'u': [0, 2**32 - 1, 65536],
             'x': [-2**63, 2**63 - 1, -1], 't': [0, 2**64 - 1, 2**32], 'h': [0, 1, 2]}
